@@ -4,6 +4,7 @@ from .. import mir
 from ..term import Terms, show, alts, is_call, walk, match, V, C, TRY, ok_payloads
 from ..e1 import src_line
 from ..rules_e2 import run_e2
+from ..rules_dep import run_dep
 
 UNITS = ["Nanosecond", "Microsecond", "Millisecond", "Second", "Minute", "Hour", "Day"]
 NANOS = ["", "NANOS_PER_MICRO", "NANOS_PER_MILLI", "NANOS_PER_SECOND", "NANOS_PER_MINUTE", "NANOS_PER_HOUR", "NANOS_PER_CIVIL_DAY"]
@@ -55,6 +56,7 @@ def static_array(prog, path):
 
 
 def run(ctx, rep):
+    run_dep(ctx, rep, "C10")
     prog = ctx.prog("Q")
     rep.notes.append("Does not decide that the returned multiple is the mode-prescribed neighbour for concrete values beyond the tables; tie handling in round_float.")
     increment_table(rep, prog)
